@@ -4,8 +4,10 @@
 use std::collections::btree_map::Entry as BEntry;
 use std::collections::hash_map::Entry as HEntry;
 use std::collections::{BTreeMap, HashMap, HashSet};
+use std::hash::Hasher;
 use std::sync::Arc;
 
+use fnv::FnvHasher;
 use parking_lot::RwLock;
 
 use crate::desc::{is_valid_label_name, is_valid_metric_name};
@@ -37,11 +39,25 @@ impl std::fmt::Debug for RegistryCore {
     }
 }
 
+/// Identifies a collector by the set of its descriptor ids.
+///
+/// The ids are hashed in sorted order rather than summed up: sums of FNV
+/// hashes of similar names collide easily, which made collectors with
+/// different descriptors indistinguishable.
+fn collector_id_of<'a>(desc_ids: impl Iterator<Item = &'a u64>) -> u64 {
+    let mut ids: Vec<u64> = desc_ids.copied().collect();
+    ids.sort_unstable();
+    let mut h = FnvHasher::default();
+    for id in ids {
+        h.write_u64(id);
+    }
+    h.finish()
+}
+
 impl RegistryCore {
     fn register(&mut self, c: Box<dyn Collector>) -> Result<()> {
         let mut desc_id_set = HashSet::new();
         let mut new_dim_hashes: HashMap<String, u64> = HashMap::new();
-        let mut collector_id: u64 = 0;
 
         for desc in c.desc() {
             // The registry's common labels are appended to every sample, so
@@ -87,12 +103,8 @@ impl RegistryCore {
             // a refused registration must not leave anything behind.
             new_dim_hashes.insert(desc.fq_name.clone(), desc.dim_hash);
 
-            // If it is not a duplicate desc in this collector, add it to
-            // the collector_id.
-            if desc_id_set.insert(desc.id) {
-                // The set did not have this value present, true is returned.
-                collector_id = collector_id.wrapping_add(desc.id);
-            } else {
+            // Is it a duplicate desc in this collector?
+            if !desc_id_set.insert(desc.id) {
                 // The set did have this value present, false is returned.
                 //
                 // TODO: Should we allow duplicate descs within the same collector?
@@ -104,6 +116,7 @@ impl RegistryCore {
             }
         }
 
+        let collector_id = collector_id_of(desc_id_set.iter());
         match self.collectors_by_id.entry(collector_id) {
             HEntry::Vacant(vc) => {
                 self.desc_ids.extend(desc_id_set);
@@ -117,13 +130,12 @@ impl RegistryCore {
 
     fn unregister(&mut self, c: Box<dyn Collector>) -> Result<()> {
         let mut id_set = Vec::new();
-        let mut collector_id: u64 = 0;
         for desc in c.desc() {
             if !id_set.contains(&desc.id) {
                 id_set.push(desc.id);
-                collector_id = collector_id.wrapping_add(desc.id);
             }
         }
+        let collector_id = collector_id_of(id_set.iter());
 
         if self.collectors_by_id.remove(&collector_id).is_none() {
             return Err(Error::Msg(format!(
